@@ -201,7 +201,8 @@ def gen_budget(rnd, profile=None):
             sup['rows'].append({'d': src['d'], 'desc': rnd.choice(['Book', 'Cable', 'Widget 9']), 'q': q,
                                 'kind': 'POS', 'loc': '', 'style': 'plain', 'bad': None})
         sources.insert(rnd.randint(0, len(sources)), sup)
-    spec = {'year': 2025, 'rule_mode': rnd.choice([None, 'first_match', 'most_specific', 'most_specific']), 'sources': sources,
+    spec = {'year': 2025, 'currency_format': rnd.choice([None, None, '{amount} zl', '\u20ac{amount}']),
+            'rule_mode': rnd.choice([None, 'first_match', 'most_specific', 'most_specific']), 'sources': sources,
             'rules': gen_rules(rnd, kind, want_supp),
             'views': rnd.choice([None, None, [list(v) for v in rnd.sample(VIEW_POOL, rnd.choice([1, 2, 3]))]])}
     if rnd.random() < 0.12 and n >= 2:
@@ -279,6 +280,8 @@ def settings_yaml(spec):
     L = [f"year: {spec['year']}"]
     if spec.get('rule_mode'):
         L.append(f"rule_mode: {spec['rule_mode']}")
+    if spec.get('currency_format'):
+        L.append(f"currency_format: {yq(spec['currency_format'])}")
     if spec['rules']['kind'] == 'rules':
         L.append('merchants_file: config/merchants.rules')
     if spec.get('views') is not None:
@@ -587,6 +590,8 @@ def toggle(spec, kind, i, rnd):
             b['views'] = b['views'][1:] or None
         else:
             b['views'] = [list(VIEW_POOL[1]), list(VIEW_POOL[0])]
+    elif kind == 'currency_format':
+        b['currency_format'] = '{amount} kr' if b.get('currency_format') != '{amount} kr' else None
     elif kind == 'supplemental':
         if not s['rows']:
             return None
